@@ -193,6 +193,7 @@ type group struct {
 	handles  []string          // receiver paths that are interface handles (`fan := f.fan` makes `fan` an alias)
 	intTypes []string          // named integer types of the package (conversions are the identity)
 	errs     map[string]string // named error values / error constructors (by text prefix) -> error string
+	binders  map[string]string // `h, _ := <text>` statements that bind an interface handle: text -> handle name (DECLARED)
 	ops      []op
 	targets  []target
 }
@@ -285,6 +286,112 @@ var groups = []*group{
 		}},
 }
 
+func init() {
+	groups = append(groups,
+		// the two leaf curve kinds: what `f.curve.Evaluate()` is for a linear / PID curve
+		&group{name: "CurveOps", dir: "internal/curves", recvPath: "c", handles: []string{},
+			binders: map[string]string{"sensors.GetSensor(c.Config.Linear.Sensor)": "sensor", "sensors.GetSensor(c.Config.PID.Sensor)": "sensor"},
+			ops: []op{
+				{goText: "sensor.GetMovingAvg", lean: "sensor_GetMovingAvg", ret: "F64"},
+				{goText: "sensor.GetValue", lean: "sensor_GetValue", ret: "F64 × Option String"},
+				{goText: "c.pidLoop.Loop", lean: "pidLoop_Loop", args: []string{"F64", "F64"}, ret: "F64"},
+				{goText: "c.Config.Linear.Steps", lean: "Config_Linear_Steps", ret: "Option (List (Int × F64))", field: true},
+				{goText: "c.Config.Linear.Min", lean: "Config_Linear_Min", ret: "Int", field: true},
+				{goText: "c.Config.Linear.Max", lean: "Config_Linear_Max", ret: "Int", field: true},
+				{goText: "c.Config.PID.SetPoint", lean: "Config_PID_SetPoint", ret: "F64", field: true},
+				{goText: "c.Value", lean: "Value", ret: "Int", field: true, set: true},
+			},
+			targets: []target{
+				{name: "LinearSpeedCurve_SetValue", recv: "LinearSpeedCurve", fn: "SetValue"},
+				{name: "LinearSpeedCurve_Evaluate", recv: "LinearSpeedCurve", fn: "Evaluate"},
+				{name: "PidSpeedCurve_SetValue", recv: "PidSpeedCurve", fn: "SetValue"},
+				{name: "PidSpeedCurve_Evaluate", recv: "PidSpeedCurve", fn: "Evaluate"},
+			}},
+		// the file fan object: what the controller's `f.fan.*` operations are when the fan is a FileFan
+		&group{name: "FileFanOps", dir: "internal/fans", recvPath: "fan", intTypes: []string{"ControlMode", "FeatureFlag"},
+			ops: []op{
+				{goText: "util.ReadIntFromFile", lean: "readIntFromFile", args: []string{"String"}, ret: "Int × Option String"},
+				{goText: "util.WriteIntToFileAtomic", lean: "writeIntToFileAtomic", args: []string{"Int", "String"}, ret: "Option String"},
+				{goText: "expandHome", lean: "expandHome", args: []string{"String"}, ret: "String × Option String"},
+				{goText: "fan.Config.File.Path", lean: "Config_File_Path", ret: "String", field: true},
+				{goText: "fan.Config.File.RpmPath", lean: "Config_File_RpmPath", ret: "String", field: true},
+				{goText: "fan.Config.NeverStop", lean: "Config_NeverStop", ret: "Bool", field: true},
+				{goText: "fan.Pwm", lean: "Pwm", ret: "Int", field: true, set: true},
+				{goText: "fan.Rpm", lean: "Rpm", ret: "Int", field: true, set: true},
+			},
+			targets: []target{
+				{name: "FileFan_GetStartPwm", recv: "FileFan", fn: "GetStartPwm"},
+				{name: "FileFan_SetStartPwm", recv: "FileFan", fn: "SetStartPwm"},
+				{name: "FileFan_GetMinPwm", recv: "FileFan", fn: "GetMinPwm"},
+				{name: "FileFan_SetMinPwm", recv: "FileFan", fn: "SetMinPwm"},
+				{name: "FileFan_GetMaxPwm", recv: "FileFan", fn: "GetMaxPwm"},
+				{name: "FileFan_SetMaxPwm", recv: "FileFan", fn: "SetMaxPwm"},
+				{name: "FileFan_GetRpm", recv: "FileFan", fn: "GetRpm"},
+				{name: "FileFan_GetRpmAvg", recv: "FileFan", fn: "GetRpmAvg"},
+				{name: "FileFan_SetRpmAvg", recv: "FileFan", fn: "SetRpmAvg"},
+				{name: "FileFan_GetPwm", recv: "FileFan", fn: "GetPwm"},
+				{name: "FileFan_SetPwm", recv: "FileFan", fn: "SetPwm"},
+				{name: "FileFan_AttachFanRpmCurveData", recv: "FileFan", fn: "AttachFanRpmCurveData"},
+				{name: "FileFan_UpdateFanRpmCurveValue", recv: "FileFan", fn: "UpdateFanRpmCurveValue"},
+				{name: "FileFan_ShouldNeverStop", recv: "FileFan", fn: "ShouldNeverStop"},
+				{name: "FileFan_GetPwmEnabled", recv: "FileFan", fn: "GetPwmEnabled"},
+				{name: "FileFan_SetPwmEnabled", recv: "FileFan", fn: "SetPwmEnabled"},
+				{name: "FileFan_IsPwmAuto", recv: "FileFan", fn: "IsPwmAuto"},
+				{name: "FileFan_Supports", recv: "FileFan", fn: "Supports"},
+			}},
+		// the three sensor backends
+		&group{name: "SensorOps", dir: "internal/sensors", recvPath: "sensor",
+			errs: map[string]string{"fmt.Errorf(\"sensor %s: %s\"": "exec", "fmt.Errorf(\"sensor %s: command returned a non-finite": "non-finite"},
+			ops: []op{
+				{goText: "util.ReadIntFromFile", lean: "readIntFromFile", args: []string{"String"}, ret: "Int × Option String"},
+				{goText: "util.SafeCmdExecution", lean: "safeCmdExecution", args: []string{"String", "Array String", "Int"}, ret: "String × Option String"},
+				{goText: "strconv.ParseFloat", lean: "parseFloat", args: []string{"String", "Int"}, ret: "F64 × Option String"},
+				{goText: "expandHome", lean: "expandHome", args: []string{"String"}, ret: "String × Option String"},
+				{goText: "sensor.Input", lean: "Input", ret: "String", field: true},
+				{goText: "sensor.Config.File.Path", lean: "Config_File_Path", ret: "String", field: true},
+				{goText: "sensor.Config.Cmd.Exec", lean: "Config_Cmd_Exec", ret: "String", field: true},
+				{goText: "sensor.Config.Cmd.Args", lean: "Config_Cmd_Args", ret: "Array String", field: true},
+				{goText: "sensor.MovingAvg", lean: "MovingAvg", ret: "F64", field: true, set: true},
+			},
+			targets: []target{
+				{name: "HwmonSensor_GetValue", recv: "HwmonSensor", fn: "GetValue"},
+				{name: "HwmonSensor_GetMovingAvg", recv: "HwmonSensor", fn: "GetMovingAvg"},
+				{name: "HwmonSensor_SetMovingAvg", recv: "HwmonSensor", fn: "SetMovingAvg"},
+				{name: "FileSensor_GetValue", recv: "FileSensor", fn: "GetValue"},
+				{name: "FileSensor_GetMovingAvg", recv: "FileSensor", fn: "GetMovingAvg"},
+				{name: "FileSensor_SetMovingAvg", recv: "FileSensor", fn: "SetMovingAvg"},
+				{name: "CmdSensor_GetValue", recv: "CmdSensor", fn: "GetValue"},
+				{name: "CmdSensor_GetMovingAvg", recv: "CmdSensor", fn: "GetMovingAvg"},
+				{name: "CmdSensor_SetMovingAvg", recv: "CmdSensor", fn: "SetMovingAvg"},
+			}},
+		// the sensor monitor's smoothing step (internal/monitor.go)
+		&group{name: "MonitorOps", dir: "internal", recvPath: "",
+			ops: []op{
+				{goText: "s.GetValue", lean: "s_GetValue", ret: "F64 × Option String"},
+				{goText: "s.GetMovingAvg", lean: "s_GetMovingAvg", ret: "F64"},
+				{goText: "s.SetMovingAvg", lean: "s_SetMovingAvg", args: []string{"F64"}, ret: "Unit"},
+				{goText: "configuration.CurrentConfig.TempRollingWindowSize", lean: "cfg_TempRollingWindowSize", ret: "Int", field: true},
+			},
+			targets: []target{
+				{name: "internal_updateSensor", fn: "updateSensor", alias: map[string]string{"s": "s"}},
+			}},
+		// util.PidLoop: the PID term behind PID curves and the PID control algorithm
+		&group{name: "PidOps", dir: "internal/util", recvPath: "p",
+			ops: []op{
+				{goText: "time.Now", lean: "now", ret: "Int"},
+				{goText: "p.p", lean: "p", ret: "F64", field: true},
+				{goText: "p.i", lean: "i", ret: "F64", field: true},
+				{goText: "p.d", lean: "d", ret: "F64", field: true},
+				{goText: "p.error", lean: "error", ret: "F64", field: true, set: true},
+				{goText: "p.integral", lean: "integral", ret: "F64", field: true, set: true},
+				{goText: "p.lastTime", lean: "lastTime", ret: "Option Int", field: true, set: true},
+			},
+			targets: []target{
+				{name: "PidLoop_Loop", recv: "PidLoop", fn: "Loop"},
+			}},
+	)
+}
+
 func findOp(text string) *op {
 	for i := range cur.ops {
 		if cur.ops[i].goText == text {
@@ -365,6 +472,9 @@ func (t *tr) goTyp(e ast.Expr) string {
 		if isIntType(id.Name) {
 			return "Int"
 		}
+	}
+	if str(e) == "[]string" {
+		return "Array String"
 	}
 	if st, ok := e.(*ast.StarExpr); ok {
 		switch str(st.X) {
@@ -471,6 +581,17 @@ func (t *tr) expr(e ast.Expr) ex {
 			}
 			return ex{e.Value, "const"}
 		}
+		if e.Kind == token.FLOAT {
+			// only literals with an integral value (0.0, 1000.0): exact in binary64
+			if f, err := strconv.ParseFloat(e.Value, 64); err == nil && f == float64(int64(f)) && f > -1e15 && f < 1e15 {
+				return ex{"(F64.ofInt " + strconv.FormatInt(int64(f), 10) + ")", "F64"}
+			}
+		}
+		if e.Kind == token.STRING {
+			if sv, err := strconv.Unquote(e.Value); err == nil {
+				return ex{strconv.Quote(sv), "String"}
+			}
+		}
 		fail("literal %s", e.Value)
 	case *ast.Ident:
 		switch e.Name {
@@ -512,6 +633,10 @@ func (t *tr) expr(e ast.Expr) ex {
 					}
 				}
 			}
+		}
+		if d := map[string]string{"time.Second": "1000000000", "time.Millisecond": "1000000"}[str(e)]; d != "" && importDir(t.file, "time") == "<ext>time" {
+			t.note(e, "%s = %s (a time.Duration is a count of nanoseconds)", str(e), d)
+			return ex{d, "const"}
 		}
 		fail("line %d: selector %s (path %s) is neither a field of the record of operations nor a literal constant", line(e), str(e), p)
 	case *ast.StarExpr:
@@ -680,7 +805,54 @@ func (t *tr) call(e *ast.CallExpr) []ex {
 		t.note(e, "error value `%s` is (some \"%s\") (DECLARED by the translator's table; the formatted text is not modelled)", strings.SplitN(str(e), ",", 2)[0], v)
 		return []ex{{"(some \"" + v + "\")", "Option String"}}
 	}
+	// time.Time values are nanosecond counts; a zero Time (IsZero) is `none` of an `Option Int` field
+	if sel, ok := e.Fun.(*ast.SelectorExpr); ok && sel.Sel.Name == "IsZero" && len(e.Args) == 0 {
+		x := t.expr(sel.X)
+		if x.ty == "Option Int" {
+			t.note(e, "`%s`: a time.Time field is an Option Int of nanoseconds, the zero Time is none", str(e))
+			return []ex{{"(" + x.s + " = none)", "Prop"}}
+		}
+	}
+	if sel, ok := e.Fun.(*ast.SelectorExpr); ok && sel.Sel.Name == "Seconds" && len(e.Args) == 0 {
+		if in, ok := sel.X.(*ast.CallExpr); ok {
+			if s2, ok := in.Fun.(*ast.SelectorExpr); ok && s2.Sel.Name == "Sub" && len(in.Args) == 1 {
+				a := t.expr(s2.X)
+				b := t.expr(in.Args[0])
+				bs := b.s
+				if b.ty == "Option Int" {
+					bs = "(← Go.deref " + b.s + ")"
+				} else if b.ty != "Int" {
+					fail("line %d: `%s`", line(e), str(e))
+				}
+				if a.ty != "Int" {
+					fail("line %d: `%s`", line(e), str(e))
+				}
+				t.note(e, "`%s`: difference of two clock readings (ns) as float seconds: F64.secondsOfNanos", str(e))
+				return []ex{{"(F64.secondsOfNanos (" + a.s + " - " + bs + "))", "F64"}}
+			}
+		}
+	}
 	switch {
+	case fun == "math.IsNaN" && importDir(t.file, "math") == "<ext>math":
+		return []ex{{"(F64.isNaN " + t.conv(one(), "F64", e) + ")", "Bool"}}
+	case fun == "math.IsInf" && importDir(t.file, "math") == "<ext>math" && len(e.Args) == 2 && str(e.Args[1]) == "0":
+		x := t.conv(t.expr(e.Args[0]), "F64", e.Args[0])
+		t.note(e, "math.IsInf(x, 0): neither NaN nor finite")
+		return []ex{{"((! (F64.isNaN " + x + ")) && (! (F64.isFinite " + x + ")))", "Bool"}}
+	case fun == "math.Round" && importDir(t.file, "math") == "<ext>math":
+		return []ex{{"(F64.round " + t.conv(one(), "F64", e) + ")", "F64"}}
+	case fun == "util.Coerce" && importDir(t.file, "util") == "internal/util":
+		t.note(e, "util.Coerce is Generated.util_Coerce (transgen)")
+		return []ex{{"(Generated.util_Coerce indef " + t.args(e, []string{"F64", "F64", "F64"}) + ")", "F64"}}
+	case fun == "util.CalculateInterpolatedCurveValue" && importDir(t.file, "util") == "internal/util" && len(e.Args) == 3:
+		m := t.expr(e.Args[0])
+		if m.ty != "Option (List (Int × F64))" {
+			fail("line %d: steps of type %s", line(e), m.ty)
+		}
+		ty := t.expr(e.Args[1])
+		x := t.conv(t.expr(e.Args[2]), "F64", e.Args[2])
+		t.note(e, "util.CalculateInterpolatedCurveValue is Generated2.util_CalculateInterpolatedCurveValue (transgen2), lifted; a nil map is the empty map")
+		return []ex{{"(← Go.liftRes (Generated2.util_CalculateInterpolatedCurveValue indef (Go.mapOf " + m.s + ") " + ty.s + " " + x + "))", "F64"}}
 	case isIntType(fun):
 		x := one()
 		if x.ty == "Int" || x.ty == "const" {
@@ -698,6 +870,9 @@ func (t *tr) call(e *ast.CallExpr) []ex {
 		x := one()
 		if strings.HasPrefix(x.ty, "List (") {
 			return []ex{{"(Go.lenM " + x.s + ")", "Int"}}
+		}
+		if x.ty == "String" {
+			return []ex{{"(Go.lenS " + x.s + ")", "Int"}}
 		}
 		fail("line %d: len of %s", line(e), x.ty)
 	case fun == "ComputePwmBoundaries" && cur.dir == "internal/fans" && len(e.Args) == 1 && t.path(e.Args[0]) == cur.recvPath:
@@ -728,6 +903,9 @@ func (t *tr) call(e *ast.CallExpr) []ex {
 			return []ex{{x.s, "Int"}}
 		}
 		fail("line %d: conversion `%s`", line(e), str(e))
+	case fun == "time.Now" && findOp("time.Now") != nil && len(e.Args) == 0:
+		t.note(e, "time.Now() is the operation `now` (nanoseconds)")
+		return []ex{{"(← ops.now)", "Int"}}
 	case (fun == "util.FindClosest" && importDir(t.file, "util") == "internal/util"):
 		t.note(e, "util.FindClosest is Generated2.util_FindClosest (transgen2), lifted into the state monad")
 		return []ex{{"(← Go.liftRes (Generated2.util_FindClosest indef " + t.args(e, []string{"Int", "Array Int"}) + "))", "Int"}}
@@ -737,16 +915,18 @@ func (t *tr) call(e *ast.CallExpr) []ex {
 	}
 	// another target of the group: method on the receiver, or a package-level function taking the receiver's fan
 	name := ""
+	onRecv := false
 	if s, ok := e.Fun.(*ast.SelectorExpr); ok {
 		if id, ok := s.X.(*ast.Ident); ok && id.Name == t.recv && t.recv != "" {
 			name = s.Sel.Name
+			onRecv = true
 		}
 	} else if id, ok := e.Fun.(*ast.Ident); ok {
 		name = id.Name
 	}
 	for i := range cur.targets {
 		g := &cur.targets[i]
-		if g.fn != name {
+		if g.fn != name || (onRecv && g.recv != t.tg.recv) || (!onRecv && g.recv != "") {
 			continue
 		}
 		d := done[g.name]
@@ -928,6 +1108,10 @@ func (t *tr) stmt(st ast.Stmt) []string {
 				t.note(st, "SKIPPED (logging): `%s`", str(st))
 				return nil
 			}
+			if strings.HasSuffix(str(c.Fun), "Mu.Lock") || strings.HasSuffix(str(c.Fun), "Mu.Unlock") || strings.HasSuffix(str(c.Fun), ".mu.Lock") {
+				t.note(st, "SKIPPED (mutex; mutual exclusion is C20's subject): `%s`", str(st))
+				return nil
+			}
 			rs := t.call(c)
 			if len(rs) == 1 && rs[0].ty == "Unit" {
 				return []string{strings.TrimSuffix(strings.TrimPrefix(rs[0].s, "(← "), ")")}
@@ -935,7 +1119,42 @@ func (t *tr) stmt(st ast.Stmt) []string {
 			return []string{"let _ ← " + strings.TrimSuffix(strings.TrimPrefix(rs[0].s, "(← "), ")")}
 		}
 		fail("line %d: statement `%s`", ln, str(st))
+	case *ast.DeferStmt:
+		if strings.HasSuffix(str(s.Call.Fun), "Mu.Unlock") || strings.HasSuffix(str(s.Call.Fun), ".mu.Unlock") {
+			t.note(st, "SKIPPED (mutex; mutual exclusion is C20's subject): `%s`", str(st))
+			return nil
+		}
+		fail("line %d: defer `%s`", ln, str(st))
+	case *ast.DeclStmt:
+		gd := s.Decl.(*ast.GenDecl)
+		if gd.Tok == token.VAR && len(gd.Specs) == 1 {
+			vs := gd.Specs[0].(*ast.ValueSpec)
+			if len(vs.Names) == 1 {
+				name := vs.Names[0].Name
+				if len(vs.Values) == 1 && vs.Type == nil {
+					return t.stmt(&ast.AssignStmt{Lhs: []ast.Expr{vs.Names[0]}, Tok: token.DEFINE, Rhs: vs.Values, TokPos: st.Pos()})
+				}
+				if len(vs.Values) == 0 && vs.Type != nil {
+					ty := t.goTyp(vs.Type)
+					lean := t.declare(name, ty, st)
+					t.scopeOf[name] = t.level
+					return []string{"let mut " + lean + " : " + ty + " := " + zero(ty)}
+				}
+			}
+		}
+		fail("line %d: declaration `%s`", ln, str(st))
 	case *ast.AssignStmt:
+		if len(s.Lhs) == 2 && len(s.Rhs) == 1 && s.Tok == token.DEFINE {
+			if h, ok := cur.binders[str(s.Rhs[0])]; ok && str(s.Lhs[1]) == "_" {
+				id, isId := s.Lhs[0].(*ast.Ident)
+				if isId {
+					t.alias[id.Name] = h
+					delete(t.vars, id.Name)
+					t.note(st, "`%s`: %s stands for the interface handle `%s` from here on (DECLARED by the translator's table)", str(st), id.Name, h)
+					return nil
+				}
+			}
+		}
 		if len(s.Rhs) == 1 {
 			if c, ok := s.Rhs[0].(*ast.CallExpr); ok && len(s.Lhs) >= 2 {
 				return t.bindCall(s.Lhs, c, s.Tok == token.DEFINE, st)
@@ -999,7 +1218,11 @@ func (t *tr) stmt(st ast.Stmt) []string {
 		}
 		p := t.path(s.Lhs[0])
 		if o := findOp(p); o != nil && o.field && o.set {
-			return []string{"ops.set_" + o.lean + " " + t.conv(t.expr(rhs), o.ret, st)}
+			v := t.expr(rhs)
+			if o.ret == "Option Int" && v.ty == "Int" && strings.HasSuffix(o.goText, "Time") {
+				return []string{"ops.set_" + o.lean + " (some " + v.s + ")"} // a clock reading stored in a time.Time field
+			}
+			return []string{"ops.set_" + o.lean + " " + t.conv(v, o.ret, st)}
 		}
 		// (*fan.Field)[k] = v   on a pointer-to-map field
 		if ix, ok := s.Lhs[0].(*ast.IndexExpr); ok {
@@ -1077,7 +1300,49 @@ func (t *tr) ret(s *ast.ReturnStmt) []string {
 	return []string{"return (" + strings.Join(vals, ", ") + ")"}
 }
 
+// the `~` expansion idiom of file sensors / file fans:
+//
+//	if strings.HasPrefix(v, "~") { currentUser, err := user.Current(); if err != nil { return ... }; v = filepath.Join(currentUser.HomeDir, v[1:]) }
+//
+// becomes the operation expandHome (the path, or the error of user.Current)
+func (t *tr) tildeIdiom(s *ast.IfStmt) ([]string, bool) {
+	c, ok := s.Cond.(*ast.CallExpr)
+	if !ok || str(c.Fun) != "strings.HasPrefix" || len(c.Args) != 2 || str(c.Args[1]) != "\"~\"" || s.Else != nil || s.Init != nil || len(s.Body.List) != 3 {
+		return nil, false
+	}
+	v, ok := c.Args[0].(*ast.Ident)
+	if !ok || t.vars[v.Name] != "String" || findOp("expandHome") == nil {
+		return nil, false
+	}
+	if str(s.Body.List[0]) != "currentUser, err := user.Current()" || str(s.Body.List[2]) != v.Name+" = filepath.Join(currentUser.HomeDir, "+v.Name+"[1:])" {
+		return nil, false
+	}
+	inner, ok := s.Body.List[1].(*ast.IfStmt)
+	if !ok || str(inner.Cond) != "err != nil" {
+		return nil, false
+	}
+	tmpCounter++
+	tmp := fmt.Sprintf("__h%d", tmpCounter)
+	t.note(s, "`if strings.HasPrefix(%s, \"~\") { user.Current ... filepath.Join(HomeDir, %s[1:]) }` is the operation expandHome (path with the home directory, or the error of user.Current)", v.Name, v.Name)
+	out := []string{"let " + tmp + " : String × Option String ← ops.expandHome " + t.names[v.Name]}
+	out = append(out, t.scoped(func() []string {
+		t.level++
+		defer func() { t.level-- }()
+		lean := t.declare("err", "Option String", s)
+		t.scopeOf["err"] = t.level
+		o := []string{"if (" + tmp + ".2 ≠ none) then"}
+		body := []string{"let mut " + lean + " : Option String := " + tmp + ".2"}
+		body = append(body, t.block(inner.Body.List)...)
+		return append(o, ind(body)...)
+	})...)
+	out = append(out, t.names[v.Name]+" := "+tmp+".1")
+	return out, true
+}
+
 func (t *tr) ifStmt(s *ast.IfStmt) []string {
+	if l, ok := t.tildeIdiom(s); ok {
+		return l
+	}
 	if s.Init != nil {
 		// `if v, err := f(); cond { }`: the init statement lives in a scope that ends with the `if`
 		return t.scoped(func() []string {
